@@ -1293,8 +1293,8 @@ Proof.
   - eapply greach_step; eassumption.
   - exact C.
   - intros c' a' q' m'. unfold upd. destruct (Nat.eqb c' c) eqn:E; [|apply S].
-    simpl. intros Hx [EE|[]]. inversion EE; subst.
-    destruct (Hsn m' (eq_sym H1)) as [a [-> ->]]. inversion Hx; subst. apply C.
+    simpl. intros Hx [EE|[]]. inversion EE as [[Eq Esn]].
+    destruct (Hsn m' Esn) as [a [-> ->]]. inversion Hx; subst. apply C.
   - intros c' q'. unfold upd. destruct (Nat.eqb c' c) eqn:E.
     + intros HH; inversion HH; subst. split; [reflexivity|]. split; [assumption|].
       unfold last_sent; simpl. unfold upd. rewrite E. reflexivity.
